@@ -1710,7 +1710,8 @@ class HasRounds(GenericHandler):
         """
         # XXX: could precalculate output of this in using() method, and save per-hash cost.
         #      but then users patching cls.vary_rounds / cls.default_rounds would get wrong value.
-        assert default_rounds
+        # NOTE: default_rounds may legitimately be 0 (e.g. sun_md5_crypt, whose min_rounds is 0)
+        assert default_rounds is not None
         vary_rounds = cls.vary_rounds
 
         # if vary_rounds specified as % of default, convert it to actual rounds
